@@ -90,6 +90,13 @@ class Walker(object):
         self.points = set()
         self.samples = []
         self.d15_example = None
+        self.deadline = None          # absolute time after which no further crash point is started
+
+    def over(self):
+        """enough failures collected (a broken tree fails at nearly every point) or out of time"""
+        if self.cov.get("monitor_failures", 0) + self.cov.get("disagreements_seen", 0) >= 12:
+            return True
+        return self.deadline is not None and time.time() > self.deadline
 
     # -- reporting ---------------------------------------------------------------------------------
     def disagree(self, note, m, i, inp):
@@ -235,6 +242,8 @@ class Walker(object):
         try:
             while True:
                 i += 1
+                if self.over():
+                    break
                 if source is not None:
                     op = source.next(real.view())
                     if op is None:
@@ -286,6 +295,8 @@ class Walker(object):
                         for k in range(np_ + 1):
                             L = lib.prim_len(prims[k]) if k < np_ else 0
                             for t in t_values(L, rng, case.get("all_t", False)):
+                                if self.over():
+                                    break
                                 do_kill = case.get("kill_all", False) or rng.random() < kill_p
                                 crng = rng if rng.random() < cont_p else None
                                 # the default 1 is admissible only while no .meta file had been stored
@@ -347,15 +358,18 @@ def run(ctx):
     cov = lib.Cov()
     out = {"cases": 0, "distinct": 0, "coverage": cov, "samples": [], "disagreements": [], "violations": []}
     w = Walker(jm, model, model2, tmp, cov, out)
+    budget = ctx.scale(20.0, 230.0)       # safety net only
+    w.deadline = t0 + budget
     try:
         for c in directed_cases():
+            if w.over():
+                break
             w.walk(c, ctx.rng("journal_crash/" + c["name"]), 1.0, 0.3)
             cov.hit("sequences.directed")
         n_rand = ctx.scale(40, 1600)
-        budget = ctx.scale(20.0, 230.0)       # safety net only
         done = 0
         for i in range(n_rand):
-            if time.time() - t0 > budget or len(out["disagreements"]) >= 3:
+            if time.time() - t0 > budget or len(out["disagreements"]) >= 3 or w.over():
                 break
             crng = ctx.rng("journal_crash/%d" % i)
             src = lib.RandomSource(crng, crng.choice([5, 10, 18, 30]), crng.choice([4096, 8192, 16384, 16384, 65536]))
